@@ -1,1 +1,130 @@
-fn main() {}
+use std::io::Write;
+
+use krp_harness::{chain, dump, kernel, ops, run_ops_text};
+
+fn usage() -> ! {
+    eprintln!(
+        "usage:\n  krp-harness run OPSFILE          (OPSFILE `-` = stdin)\n  krp-harness kernel NAME SEED COUNT   (NAME = deleg|undeleg|ddiv|nwr|swapinfo|drewards)\n  krp-harness roundtrip OPSFILE    (parse and re-print every operation)\n  krp-harness explain OPSFILE      (like run, but prints op lines and failure reasons; diagnostics only)\nenvironment: KRP_NO_CACHE=1 disables the (sound) memoisation of dump fragments"
+    );
+    std::process::exit(2);
+}
+
+fn read_input(path: &str) -> String {
+    if path == "-" {
+        let mut s = String::new();
+        std::io::Read::read_to_string(&mut std::io::stdin(), &mut s).unwrap_or_else(|e| {
+            eprintln!("cannot read stdin: {}", e);
+            std::process::exit(2);
+        });
+        s
+    } else {
+        std::fs::read_to_string(path).unwrap_or_else(|e| {
+            eprintln!("cannot read {}: {}", path, e);
+            std::process::exit(2);
+        })
+    }
+}
+
+fn main() {
+    chain::install_panic_hook();
+    if std::env::var("KRP_NO_CACHE").map(|v| v == "1").unwrap_or(false) {
+        dump::set_cache_enabled(false);
+    }
+    let args: Vec<String> = std::env::args().collect();
+    if args.len() < 2 {
+        usage();
+    }
+    let stdout = std::io::stdout();
+    let mut w = std::io::BufWriter::new(stdout.lock());
+    match args[1].as_str() {
+        "run" => {
+            if args.len() != 3 {
+                usage();
+            }
+            let text = read_input(&args[2]);
+            match run_ops_text(&text) {
+                Ok(out) => {
+                    w.write_all(out.as_bytes()).unwrap();
+                }
+                Err(e) => {
+                    eprintln!("krp-harness: unparsable operation: {}", e);
+                    std::process::exit(2);
+                }
+            }
+        }
+        "roundtrip" => {
+            if args.len() != 3 {
+                usage();
+            }
+            let text = read_input(&args[2]);
+            for (ln, line) in text.lines().enumerate() {
+                if ops::is_blank(line) {
+                    continue;
+                }
+                match ops::parse_op(line) {
+                    Ok(op) => writeln!(w, "{}", op.to_line()).unwrap(),
+                    Err(e) => {
+                        eprintln!("krp-harness: line {}: {}", ln + 1, e);
+                        std::process::exit(2);
+                    }
+                }
+            }
+        }
+        "explain" => {
+            if args.len() != 3 {
+                usage();
+            }
+            let text = read_input(&args[2]);
+            let mut world = krp_harness::World::new(0);
+            let mut index = 0u64;
+            for (ln, line) in text.lines().enumerate() {
+                if ops::is_blank(line) {
+                    continue;
+                }
+                let op = ops::parse_op(line).unwrap_or_else(|e| {
+                    eprintln!("krp-harness: line {}: {}", ln + 1, e);
+                    std::process::exit(2);
+                });
+                if op.is_reset() {
+                    index = 0;
+                }
+                let res = ops::apply_op(&mut world, &op);
+                writeln!(
+                    w,
+                    "op {} {} :: {}{}",
+                    index,
+                    if res.ok { "ok" } else { "err" },
+                    op.to_line(),
+                    match &res.error {
+                        Some(e) => format!(" :: {}", e),
+                        None => String::new(),
+                    }
+                )
+                .unwrap();
+                for l in &res.trace {
+                    writeln!(w, "    {}", l).unwrap();
+                }
+                for l in &res.failed_trace {
+                    writeln!(w, "    (failed tx) {}", l).unwrap();
+                }
+                index += 1;
+            }
+        }
+        "kernel" => {
+            if args.len() != 5 {
+                usage();
+            }
+            let seed: u64 = args[3].parse().unwrap_or_else(|_| usage());
+            let count: u64 = args[4].parse().unwrap_or_else(|_| usage());
+            match kernel::stream(&args[2], seed, count, &mut w) {
+                Ok(()) => {}
+                Err(e) => {
+                    eprintln!("krp-harness: {}", e);
+                    std::process::exit(2);
+                }
+            }
+        }
+        _ => usage(),
+    }
+    w.flush().unwrap();
+}
